@@ -215,4 +215,60 @@ PushPost(P, loc, rem, items, o) ==
   IN [ok |-> ok, denied |-> denied, verdict |-> verdict,
       gitRefs |-> gitRefs,                      \* what git leaves on the remote
       allOrNothing |-> IF ok THEN applyAll ELSE rem]   \* the other outcome C38 admits for a failed push
+
+-----------------------------------------------------------------------------
+(* push --prune with renaming refspecs (C38).
+
+   Local heads are named by short names ("a", "b"; "c" and "z" never exist locally).  A refspec kind maps
+   a local head to a remote name:
+     "id"         refs/heads/*:refs/heads/*                 x -> refs/heads/x
+     "wild-ren"   refs/heads/*:refs/remotes/laptop/*        x -> refs/remotes/laptop/x
+     "exact-ren"  refs/heads/a:refs/heads/m                 a -> refs/heads/m
+   The remote holds references under the destination names (and refs/heads/z, which lies inside the
+   destination namespace only for "id").
+
+   Post-state (git push [--prune] [--force]):
+     - every local head matched by the refspec is pushed to its destination: created, fast-forwarded,
+       or moved when forced; a non-fast-forward without force is denied and leaves the value;
+     - with prune, every remote reference inside the destination namespace whose local counterpart
+       (the name the REVERSED refspec maps it to) does not exist is deleted;
+     - nothing else is touched: a reference with a local source is never deleted.            *)
+
+PrShort == {"a", "b", "c"}
+PrDst(k, x) == IF k = "id" THEN "refs/heads/" \o x
+               ELSE IF k = "wild-ren" THEN "refs/remotes/laptop/" \o x
+               ELSE "refs/heads/m"
+PrZ == "refs/heads/z"
+PrNames(k) == {PrDst(k, x) : x \in PrShort} \cup {PrZ}
+\* local heads the refspec pushes
+PrSources(k, loc) == IF k = "exact-ren" THEN {"a"} ELSE {x \in {"a", "b"} : loc[x] # 0}
+\* the local counterpart of a remote name under the reversed refspec ("" = outside the namespace)
+PrCounterpart(k, n) ==
+  IF k = "exact-ren" THEN (IF n = "refs/heads/m" THEN "a" ELSE "")
+  ELSE IF \E x \in PrShort : n = PrDst(k, x) THEN CHOOSE x \in PrShort : n = PrDst(k, x)
+  ELSE IF k = "id" /\ n = PrZ THEN "z" ELSE ""
+PrLocal(loc, x) == IF x \in DOMAIN loc THEN loc[x] ELSE 0
+
+PrunePost(P, loc, rem, k, o) ==
+  LET srcs == PrSources(k, loc)
+      verdictOf(x) == LET new == loc[x]
+                          old == rem[PrDst(k, x)]
+                      IN IF new = old THEN "noop"
+                         ELSE IF old = 0 \/ o.force THEN "allowed"
+                         ELSE IF old \in AncOf(P, {new}) THEN "allowed" ELSE "denied"
+      denied == {PrDst(k, x) : x \in {y \in srcs : verdictOf(y) = "denied"}}
+      pruned == IF o.prune
+                THEN {n \in PrNames(k) : /\ rem[n] # 0
+                                         /\ PrCounterpart(k, n) # ""
+                                         /\ PrLocal(loc, PrCounterpart(k, n)) = 0}
+                ELSE {}
+      applied == [n \in PrNames(k) |->
+                    IF n \in pruned THEN 0
+                    ELSE IF \E x \in srcs : PrDst(k, x) = n /\ verdictOf(x) = "allowed"
+                         THEN loc[CHOOSE x \in srcs : PrDst(k, x) = n /\ verdictOf(x) = "allowed"]
+                         ELSE rem[n]]
+  IN [ok |-> denied = {}, denied |-> denied, pruned |-> pruned,
+      verdict |-> [x \in srcs |-> verdictOf(x)],
+      gitRefs |-> applied,
+      allOrNothing |-> IF denied = {} THEN applied ELSE rem]
 =============================================================================
